@@ -39,6 +39,8 @@ type stream struct {
 	// known maps a case on which prop fails to the class id of a known finding
 	// ("" if it belongs to none). Classes are listed in /verif/known_findings.json.
 	known func(args []string) string
+	// normalize recomputes derived arguments after the shrinker edited one.
+	normalize func(args []string) []string
 }
 
 var streams = map[string]*stream{}
@@ -160,7 +162,7 @@ func main() {
 				distinct[raw] = true
 				nontriv++
 				if len(samples) < 12 && (nontriv%97 == 1 || nontriv < 4) {
-					samples = append(samples, showLine(raw)+" => "+showLine("x "+o)[2:])
+					samples = append(samples, showLine(raw)+" => "+showLine("x " + o)[2:])
 				}
 			}
 		})
@@ -206,30 +208,61 @@ func main() {
 	}
 }
 
-// shrink greedily removes runes from the string arguments of a failing case
-// while the property oracle keeps failing (and the known-class stays the same).
+// shrink greedily removes runes (or bytes) from the arguments of a failing
+// case while the property oracle keeps failing with the same known-class.
 func shrink(s *stream, args []string) []string {
-	failing := func(a []string) bool { return strings.HasPrefix(safeProp(s, a), "FAIL") }
+	class := func(a []string) string {
+		if s.known == nil {
+			return ""
+		}
+		return s.known(a)
+	}
+	want := class(args)
+	failing := func(a []string) bool {
+		return strings.HasPrefix(safeProp(s, a), "FAIL") && class(a) == want
+	}
+	norm := func(a []string) []string {
+		if s.normalize != nil {
+			return s.normalize(a)
+		}
+		return a
+	}
 	if !failing(args) {
 		return args
 	}
 	cur := append([]string(nil), args...)
+	hasBytes := false
+	for _, a := range cur {
+		if strings.HasPrefix(a, "b:") {
+			hasBytes = true
+		}
+	}
 	for idx := range cur {
-		if !strings.HasPrefix(cur[idx], "s:") {
+		var units []string // the argument split into removable units
+		var join func([]string) string
+		switch {
+		case strings.HasPrefix(cur[idx], "b:"):
+			h := cur[idx][2:]
+			for i := 0; i+2 <= len(h); i += 2 {
+				units = append(units, h[i:i+2])
+			}
+			join = func(u []string) string { return "b:" + strings.Join(u, "") }
+		case strings.HasPrefix(cur[idx], "s:") && !(hasBytes && s.normalize != nil):
+			if cur[idx] != "s:" {
+				units = strings.Split(cur[idx][2:], ",")
+			}
+			join = func(u []string) string { return "s:" + strings.Join(u, ",") }
+		default:
 			continue
 		}
-		str, err := decStr(cur[idx])
-		if err != nil {
-			continue
-		}
-		rs := []rune(str)
-		for chunk := len(rs) / 2; chunk >= 1; chunk /= 2 {
-			for i := 0; i+chunk <= len(rs); {
-				cand := append(append([]rune(nil), rs[:i]...), rs[i+chunk:]...)
+		for chunk := len(units) / 2; chunk >= 1; chunk /= 2 {
+			for i := 0; i+chunk <= len(units); {
+				cand := append(append([]string(nil), units[:i]...), units[i+chunk:]...)
 				try := append([]string(nil), cur...)
-				try[idx] = encRunes(cand)
+				try[idx] = join(cand)
+				try = norm(try)
 				if failing(try) {
-					rs = cand
+					units = cand
 					cur = try
 				} else {
 					i++
